@@ -375,13 +375,12 @@ func (s *Session) parseRcptTo(args string) (string, error) {
 	// Expected format: TO:<address> or TO: <address>
 	args = strings.TrimSpace(args)
 
-	if !strings.HasPrefix(strings.ToUpper(args), "TO:") {
+	// The keyword is case-insensitive (RFC 5321 section 2.4)
+	if len(args) < 3 || !strings.EqualFold(args[:3], "TO:") {
 		return "", fmt.Errorf("expected TO")
 	}
 
-	args = strings.TrimPrefix(args, "TO:")
-	args = strings.TrimPrefix(args, "to:")
-	args = strings.TrimSpace(args)
+	args = strings.TrimSpace(args[3:])
 
 	// Remove angle brackets if present
 	args = strings.TrimPrefix(args, "<")
